@@ -248,41 +248,34 @@ def run(ctx):
              f"TrackingBackend.status gives {{tracked+RUNNING: {out.get('T')}, untracked: {out.get('U')}, tracked without record: {out.get('nostate')}}}; "
              "expected RUNNING / UNKNOWN / UNKNOWN (the state of the target's own latest job and of no other)", st_m.where)
     rule_id_lookup(ctx, r2)
-    # all tracked ids are queried
-    init_s = idx.method(tb, "_init_status")
-    q_ok = any(isinstance(c.func, ast.Attribute) and c.func.attr == "get_job_states" and c.args and
-               ast.unparse(c.args[0]) in ("list(self._tracked_jobs.values())", "self._tracked_jobs.values()", "set(self._tracked_jobs.values())")
-               for c in _calls(init_s.node))
-    r2.check(q_ok, f"{init_s.module.relpath}::{init_s.qual}", "all tracked ids are passed to ops.get_job_states",
-             "the backend does not query the states of all tracked job ids", init_s.where)
-    # load path == save path; what is saved is the in-memory table
-    close_m = idx.method(tb, "close")
-    init_t = idx.method(tb, "_init_tracked")
-    load_ok = any(isinstance(c.func, (ast.Name, ast.Attribute)) and idx.canon(c.func, init_t.module) == "builtins.open" and c.args
-                  and ast.unparse(c.args[0]) == "self._get_state_path()" for c in _calls(init_t.node))
-    r2.check(load_ok, f"{init_t.module.relpath}::{init_t.qual}", "tracked ids are loaded from self._get_state_path()",
-             "tracked ids are not loaded from the backend's state path", init_t.where)
+    # start of an invocation: the table is what the previous one saved, and exactly its ids are asked about
+    from .evalhelpers import eval_backend_init, eval_submit_ids
+    from ..symeval import tok
+    disk = {"A": "11", "B": "22"}
+    init = eval_backend_init(ctx, disk)
+    init0 = eval_backend_init(ctx, None)
+    icon = f"{tb.module.relpath}::TrackingBackend::start"
+    if isinstance(init, str) or isinstance(init0, str):
+        r2.violation(icon, f"the backend's initialisers cannot be followed or fail: {init if isinstance(init, str) else init0}", tb.where)
+    else:
+        want_path = tok("PROJ") + "/.gwf/NAME-backend-tracked.json"
+        r2.check(init["tracked"] == disk and init0["tracked"] == {}, icon + "::load", "tracked ids = the saved file's content (empty when there is no file)",
+                 f"with {disk} saved earlier the backend starts with {init['tracked']} (no file: {init0['tracked']}): jobs accepted earlier are forgotten", tb.where)
+        r2.check(bool(init["queried"]) and sorted(init["queried"][-1]) == sorted(disk.values()) and isinstance(init["states"], dict) and set(init["states"]) == set(disk.values()),
+                 icon + "::query", "all tracked ids are passed to ops.get_job_states and its answer becomes the state table",
+                 f"tracked ids {sorted(disk.values())}: ops.get_job_states is asked about {init['queried']}, the state table starts as {init['states']}", tb.where)
+        r2.check([p_ for p_, m_ in init["opened"] if "w" not in m_][:1] == [want_path], icon + "::path", "state file is <project>/.gwf/<backend name>-backend-tracked.json",
+                 f"the tracked-jobs file is read from {[p_ for p_, m_ in init['opened']]}, expected {want_path}: not a per-backend file under the project's .gwf directory", tb.where)
     from .c07 import rule_tracked_dump
     from .persist import rule_close_writes, rule_exit_persists
     rule_tracked_dump(ctx, r2)
     rule_exit_persists(ctx, r2, ("tracked jobs",))
     rule_close_writes(ctx, r2, ("tracked jobs",))
-    sp_m = idx.method(tb, "_get_state_path")
-    sp_txt = ast.unparse(sp_m.node)
-    r2.check(".gwf" in sp_txt and "self.name" in sp_txt and "self.working_dir" in sp_txt, f"{sp_m.module.relpath}::{sp_m.qual}",
-             "state file is <project>/.gwf/<backend name>-backend-tracked.json",
-             "the tracked-jobs file is not a per-backend file under the project's .gwf directory", sp_m.where)
-    # id normalisation per backend (writer) and reader key types
-    for mod, cname in (("gwf.backends.slurm", "SlurmOps"), ("gwf.backends.sge", "SGEOps"), ("gwf.backends.lsf", "LSFOps")):
-        m = idx.func(f"{mod}:{cname}.submit_target")
-        rets = [n for n in walk_no_nested(m.node) if isinstance(n, ast.Return) and n.value is not None]
-        bad = None
-        for rnode in rets:
-            if not _normalised_id(idx, m, rnode.value):
-                bad = rnode
-        r2.check(rets and bad is None, f"{m.module.relpath}::{m.qual}::id", "the id handed back is stripped / extracted from the scheduler's output",
-                 "the job id returned to gwf is the raw output of the submit command (with its trailing newline): the queue listing never matches it, "
-                 "so the job's state is never found and dependents are held on a malformed id", loc(bad, m.module) if bad is not None else m.where)
+    # id normalisation per backend: what the scheduler prints on submission -> the id gwf tracks
+    for cname, (got_id, m) in eval_submit_ids(ctx).items():
+        r2.check(got_id == "4242", f"{m.module.relpath}::{m.qual}::id", "the id handed back is stripped / extracted from the scheduler's output",
+                 f"for a scheduler answer naming job 4242 the backend hands back {got_id!r}: the job id returned to gwf is the raw output of the submit command (with its "
+                 "trailing newline): the queue listing never matches it, so the job's state is never found and dependents are held on a malformed id", m.where)
     from .evalhelpers import eval_local_job_states, S
     got, lo = eval_local_job_states(ctx)
     want = {1: S("RUNNING"), 7: S("FAILED"), 9: S("COMPLETED")}
